@@ -165,6 +165,10 @@ var atoms = []string{"x", "foo", "bar-baz", "|λ|", "|größe x|", `"日本"`, "
 	":key", "'q", "#\\a", "#\\ü", "nil", "t", `"semi;colon"`, `"q\"uote"`,
 	// delimiters where they do not delimit: inside block comments, |symbols| and strings
 	"#| todo :( |#", "#| a ) b |#", "|open(|", "|close) x|", `"paren ( in string"`, `") ("`, `"#| not a comment"`, "#| \" |#", "|semi;|",
+	// what looks like an escape sequence of the file format (lines are joined with
+	// TAB; seeded change C20-o2: a TAB written as backslash-t and read back
+	// without the backslash itself being escaped)
+	"#\\tab", `"col\tcol"`, `"c:\\temp\\new"`, `"line\nline"`,
 	"; trailing comment"}
 var heads = []string{"defun", "let", "+", "list", "setq", "format", "when", "car", "princ"}
 
